@@ -133,7 +133,11 @@ func vpC06_O2() {
 	vpAssume(r.issue() == nil)
 	m := r.sigMsg
 	vpAssume(m.Proof.C.Sign() != 0)
-	switch vpChoose("holderdev", 14) {
+	switch vpChoose("holderdev", 16) {
+	case 14: // another representative of the same residue: A + N (or A - N)
+		m.Signature.A = new(big.Int).Add(m.Signature.A, r.pk.N)
+	case 15:
+		m.Signature.A = new(big.Int).Sub(m.Signature.A, r.pk.N)
 	case 0:
 		m.Proof.C = vpAddTo(m.Proof.C, d)
 	case 1:
